@@ -19,12 +19,12 @@ def main(tier, replay=None):
     res.rule = ("each execution runs the real qmail-queue binary to completion on the virtual kernel; level 0 = every input of the grid "
                 "(message sizes straddling the 256/2048/8192 buffers, 0..2 recipients, 1002/1003/1004-byte addresses, wrong record letters, "
                 "every truncation point of the envelope, four invoking uids); level 1 = for each input, every system call x {process kill, "
-                "machine crash with every keep/lose pattern of unsynced files, each applicable errno, short write, short/interrupted read}; "
+                "machine crash with every keep/lose pattern of unsynced files, each applicable errno, short write, short/interrupted read, SIGALRM (the program's own 24-hour timer) arriving before the call}; "
                 "level 2 (thorough) = every pair; the all-or-nothing invariant is evaluated after every call and on every post-crash image; "
                 "distinct = distinct (input, exit status, final queue tree)")
     res.assumptions = ["virtual kernel semantics (DESIGN.md appendix A), bound to Linux by bin/conformance",
                        "crash model of conf-qmail: directory operations synchronous, file data since last fsync may be lost per file, single writes not torn"]
-    res.require_nonzero("evaluations", "machine_crashes", "process_kills", "faults_injected", "states_committed", "states_S3_leftover", "exits_success", "exits_failure")
+    res.require_nonzero("evaluations", "machine_crashes", "process_kills", "faults_injected", "states_committed", "states_S3_leftover", "exits_success", "exits_failure", "signals_delivered")
     res.notes.append("virtual kernel vs Linux: %d operation sequences compared before this run, all agree (bin/conformance)" % nconf)
     lib_conformance(res, rd, src, ['io', 'num'], tier, asan=False)
     return res.finish()
